@@ -218,7 +218,7 @@ fn true_statement(rc: &RawCustomer, h: &PayHidden, shown_nonce: &Scalar, amount:
         && h.old_lock_committed == h.old[2]
 }
 
-fn run_case(o: &mut Outcome, case: &Value) {
+pub fn run_case(o: &mut Outcome, case: &Value) {
     let seed = case["seed"].as_u64().unwrap_or(0);
     let variant = case["variant"].as_str().unwrap_or("control").to_string();
     let mspec = case["mspec"].as_str().unwrap_or("9001");
@@ -263,6 +263,7 @@ fn run_case(o: &mut Outcome, case: &Value) {
     let mut shown = rc.state[1];
     let mut token = rc.token;
     let mut present_amount = amount;
+    let mut decoy: Option<(Scalar, [u8; 32], u8)> = None;
     let ctx = format!("c02-attack/{}", s.u64()).into_bytes();
     let site = variant.clone();
     o.bump(&format!("fault.byzantine.{}", if variant.starts_with("adaptive") { "adaptive-pay-field" } else { "false-pay-statement" }));
@@ -314,9 +315,15 @@ fn run_case(o: &mut Outcome, case: &Value) {
             knobs.unlink = if s.chance(1, 2) { Some("id-state") } else { None };
         }
         "close-tag-replaced" => h.new_cl[1] = refc::rand_scalar(&mut s),
-        "old-lock-mismatch-linked" => h.old_lock_committed = hash_lock(&mut s).0,
+        "old-lock-mismatch-linked" => {
+            let l = hash_lock(&mut s);
+            h.old_lock_committed = l.0;
+            decoy = Some(l);
+        }
         "old-lock-mismatch-unlinked" => {
-            h.old_lock_committed = hash_lock(&mut s).0;
+            let l = hash_lock(&mut s);
+            h.old_lock_committed = l.0;
+            decoy = Some(l);
             knobs.unlink = Some("old-lock");
         }
         "new-lock-mismatch" => {
@@ -438,9 +445,24 @@ fn run_case(o: &mut Outcome, case: &Value) {
             o.violate("invalid-subproof-accepted", &site, format!("a pay proof whose {} sub-proof does not satisfy its own Schnorr equation was accepted", &variant["invalid-subproof-".len()..]));
             return;
         }
-        if let Some((_u, cs)) = p.accepted {
+        if let Some((u, cs)) = p.accepted {
             let ok = unblinds_to_signature_on(m, &cs, &d.cl.bf, &h.new_cl);
-            accepted_false.push((site.clone(), p.rounds, format!("closing signature unblinds to a valid signature on the prover's hidden close state: {}", ok)));
+            let mut ev = format!("closing signature unblinds to a valid signature on the prover's hidden close state: {}", ok);
+            if variant.starts_with("old-lock-mismatch") {
+                // the commitment handed back is to a decoy lock: can the payment be completed
+                // without ever revoking the old state?
+                let decoy_bf: za::revlock::RevocationLockBlindingFactor = bincode::deserialize(&refc::scb(&d.revlock.bf)).unwrap_or_else(|_| crate::harness_error("bf"));
+                if let Some((dl, ds, di)) = decoy.as_ref() {
+                    if let Ok(pair) = bincode::deserialize::<za::revlock::RevocationPair>(&pair_bytes(dl, ds, *di)) {
+                        let mut rng = SimRng::new(seed, "c02/decoy/complete");
+                        if u.complete_payment(&mut rng, &pair, &decoy_bf).is_ok() {
+                            ev.push_str("; complete_payment then issued a pay token for a decoy revocation pair: the old state was never revoked");
+                            o.violate("pay-token-without-revocation-of-old-state", &site, "a pay token was issued although the revocation pair of the old state was never presented".into());
+                        }
+                    }
+                }
+            }
+            accepted_false.push((site.clone(), p.rounds, ev));
         }
     } else {
         match variant.as_str() {
